@@ -9,7 +9,8 @@ PID = "C20"
 LEVEL = "fault_enumeration"
 RULE = ("for gen_params, gen_coords and gen_seq: an exception injected at the entry of every stage (call site) of the program, and "
         "for the serialisers also after k = 1..3 lines have been written to the deferred handle, x output path state {absent, "
-        "present with known content, present plus existing #name.1# backup}; after the failure a later successful run of the same "
+        "present with known content, present plus existing #name.1# backup} x {absolute, relative output path} x {rename works, rename "
+        "across file systems answers EXDEV (success runs and the writing stages)}; after the failure a later successful run of the same "
         "program to another path in the same process is observed as well (a stale deferred write would surface there). Oracle: "
         "failure => directory listing and content hashes unchanged (also after the later run, apart from that run's own output); "
         "success (no fault) => complete re-readable file, previous file byte-identical under the next free #name.k#. "
@@ -87,6 +88,10 @@ def cases(tier):
                 yield dict(prog=prog, stage=st, pstate=ps, tier=tier)
                 # the same with the output given as a relative path (as on the command line: -o out.gro), cwd = output directory
                 yield dict(prog=prog, stage=st, pstate=ps, tier=tier, relative=True)
+                # environment answer: the directory of the temporary files is on another file system than the output, a
+                # rename across the two fails with EXDEV and the file is copied instead (whatever has reached the disk by then)
+                if st is None or "write" in st[1] or "LOGGER" in st[1]:
+                    yield dict(prog=prog, stage=st, pstate=ps, tier=tier, xdev=True)
                 # the error handling around the serialisers must not depend on the exception class
                 if st is not None and ("write" in st[1] or "deferred_open" in st[1] or "citation" in st[1]) and ps == "present":
                     for ft in ("key", "os", "value"):
@@ -259,6 +264,25 @@ def complete(prog, path):
 
 
 @contextlib.contextmanager
+def cross_device(active):
+    """os.rename answers EXDEV (temporary directory and output directory on different file systems): shutil.move then copies
+    the source as it is on disk at that moment and unlinks it"""
+    if not active:
+        yield
+        return
+    import errno, os
+    real = os.rename
+
+    def rename(src, dst, *a, **k):
+        raise OSError(errno.EXDEV, "Invalid cross-device link", str(src))
+    os.rename = rename
+    try:
+        yield
+    finally:
+        os.rename = real
+
+
+@contextlib.contextmanager
 def _cwd_for(case, d):
     """relative output paths: the working directory is the output directory for the duration of the case"""
     if not case.get("relative"):
@@ -284,10 +308,12 @@ def run_case(case):
     H.drain_deferred()
     if case.get("relative"):
         info += " output path relative"
+    if case.get("xdev"):
+        info += " temporary files on another file system"
     with H.tempdir() as d, _cwd_for(case, d):
         out = prepare(d, EXT[prog], pstate)
         before = listing(d / "out")
-        with inject(tuple(stage) if stage else None, case.get("fault", "runtime")):
+        with inject(tuple(stage) if stage else None, case.get("fault", "runtime")), cross_device(case.get("xdev")):
             exc = run_prog(prog, d, Path(EXT[prog]) if case.get("relative") else out, "a")
         after = listing(d / "out")
         if stage is None:
@@ -338,7 +364,7 @@ def run_case(case):
                     tags = ["stage:" + stage[1], "stale-deferred-write"]
                     bad("no-output-touched-on-failure", f"after a later successful run the failed run's path changed: right after the failure {expect} now {later}", tags)
         H.drain_deferred()
-    key = [f"{prog}:{stage}:{pstate}:{bool(case.get('relative'))}"] if pstate != "absent" else []
+    key = [f"{prog}:{stage}:{pstate}:{bool(case.get('relative'))}:{bool(case.get('xdev'))}"] if pstate != "absent" else []
     return dict(evals=1, keys=key, violations=viols, stats={"faults_injected": int(stage is not None)},
                 sample=dict(prog=prog, stage=stage, pstate=pstate))
 
